@@ -2,12 +2,15 @@
 use crate::json::J;
 use crate::run::{Cfg, Report};
 
+pub mod acc;
 pub mod cobs;
 pub mod common;
 pub mod crc;
 pub mod dec;
 pub mod enc;
 pub mod frames;
+pub mod io;
+pub mod maxsize;
 pub mod misc;
 pub mod ser;
 
@@ -35,7 +38,11 @@ pub fn dispatch(cfg: &Cfg) -> Option<Report> {
         "C03" => dec::run_c03(cfg),
         "C04" => dec::run_c04(cfg),
         "C05" => ser::run(cfg),
+        "C08" => acc::run_c08(cfg),
+        "C09" => acc::run_c09(cfg),
         "C10" => crc::run(cfg),
+        "C11" => io::run(cfg),
+        "C12" => maxsize::run(cfg),
         "C13" => misc::run_c13(cfg),
         "C20" => misc::run_c20(cfg),
         "C06" => cobs::run_c06(cfg),
